@@ -14,6 +14,7 @@
    every call's answer and the final object; f_created / f_atexit count the
    LineProfiler() constructions and atexit.register(self.show) calls. *)
 From LP Require Import Prelude.Py Explicit.Base Gen.GlobalProfiler Explicit.GlobalProfiler Explicit.C14Proofs.
+From LP Require Cli.MainEffects Cli.MainEffectsProofs.
 
 (* The first decoration decides, and decides "enabled" exactly when profiling was requested:
    for every environment, every argument list, every decorated object. *)
@@ -109,6 +110,33 @@ Theorem C14_kernprof_handoff :
     /\ f_created (snd r) = f_created s
     /\ f_atexit (snd r) = f_atexit s.
 Proof. exact handoff. Qed.
+
+(* ... and only UNDER kernprof.  kernprof.main (the effect model of Cli/MainEffects.v, tied to
+   kernprof.py by C19's in-process runs) takes the decorator over after the -s setup file has
+   run and hands it back in its finally: interleave in-process kernprof runs - any options, any
+   outcome of the program, main returning or raising - with ordinary use of the decorator; the
+   decorator object (decision, profiler, prefix, profilers created, exit hooks registered) ends
+   exactly as the ordinary uses alone leave it by the stand-alone rules: the host's uses in the
+   host's sys.argv, the setup files' uses in [script] + args.  So a run neither switches the
+   decorator on for later decorations, nor loses an enable() made before it or in its setup file
+   (whose outputs are then written at exit as C14_outputs_exact says). *)
+Theorem C14_kernprof_run_leaves_decorator_to_its_own_rules :
+  forall (acts : list MainEffects.act) (s : MainEffects.St),
+    MainEffects.gp (MainEffects.exec_acts MainEffects.current s acts)
+    = MainEffects.user_gp acts (MainEffects.cur (MainEffects.argv s)) (MainEffects.gp s).
+Proof. exact MainEffectsProofs.decorator_under_kernprof. Qed.
+
+(* a run whose setup file enables the decorator and decorates, the program raising, then a host
+   decoration: the decorator is on, with its own single profiler and one exit hook *)
+Theorem C14_kernprof_nonvacuous :
+  MainEffects.gp (MainEffects.exec_acts MainEffects.current MainEffects.st0
+                    [MainEffects.ARun MainEffectsProofs.opts_setup_uses MainEffects.raises;
+                     MainEffects.AUse MainEffects.UDecorate])
+  = mkGP (Some true) (Some (Own 1)) "profile_output" 1 1
+  /\ MainEffects.gp (MainEffects.exec_acts MainEffects.current MainEffects.st0
+                       [MainEffects.ARun MainEffects.opts0 MainEffects.raises; MainEffects.AUse MainEffects.UDecorate])
+     = mkGP (Some false) None "profile_output" 0 0.
+Proof. exact MainEffectsProofs.decorator_under_kernprof_example. Qed.
 
 (* concrete inputs meeting the hypotheses, with their results *)
 Theorem C14_nonvacuous :
